@@ -34,6 +34,11 @@ class ConstantExpressionEvaluator:
             value = self.eval_compound_literal(expr)
         elif isinstance(expr, expressions.Cast):
             value = self.eval_cast(expr)
+        elif isinstance(expr, expressions.TernaryOperator):
+            if self.eval_expr(expr.a):
+                value = self.eval_expr(expr.b)
+            else:
+                value = self.eval_expr(expr.c)
         elif isinstance(expr, expressions.Sizeof):
             if isinstance(expr.sizeof_typ, types.CType):
                 value = self.context.sizeof(expr.sizeof_typ)
